@@ -8,11 +8,6 @@ namespace DX
 
 def autoDerived : Toks := attrToks ["automatically_derived"]
 
-def thisTyToks (name : String) (g : Generics) : Toks := name :: g.useToks
-def thisTy (name : String) (g : Generics) : Ty :=
-  .path false [.mk name ((ltFirst g.params).map fun
-    | .lt n _ => GArg.lt n
-    | p => GArg.ty (Ty.simple p.name))]
 
 /-- `impl<G> Trait for Self where … { body }` -/
 def implItem (attrs : Toks) (implG trait_ selfTy wheres body : Toks) : Toks :=
@@ -76,9 +71,9 @@ def OpsImpl.renderForm (o : OpsImpl) (l r : Bool) (w : WCB) : Toks :=
     let wheres := w.build fun ty =>
       let t := ty.toks
       match l, r with
-      | true, true => "for" :: angle ["'a"] ++ "&" :: "'a" :: t ++ ":" :: trait_ ++ angle ("&" :: "'a" :: t ++ "," :: "Output" :: "=" :: t)
-      | true, false => "for" :: angle ["'a"] ++ "&" :: "'a" :: t ++ ":" :: trait_ ++ angle (t ++ "," :: "Output" :: "=" :: t)
-      | false, true => "for" :: angle ["'a"] ++ t ++ ":" :: trait_ ++ angle ("&" :: "'a" :: t ++ "," :: "Output" :: "=" :: t)
+      | true, true => "for" :: angle ["'__a"] ++ "&" :: "'__a" :: t ++ ":" :: trait_ ++ angle ("&" :: "'__a" :: t ++ "," :: "Output" :: "=" :: t)
+      | true, false => "for" :: angle ["'__a"] ++ "&" :: "'__a" :: t ++ ":" :: trait_ ++ angle (t ++ "," :: "Output" :: "=" :: t)
+      | false, true => "for" :: angle ["'__a"] ++ t ++ ":" :: trait_ ++ angle ("&" :: "'__a" :: t ++ "," :: "Output" :: "=" :: t)
       | false, false => t ++ ":" :: trait_ ++ angle (t ++ "," :: "Output" :: "=" :: t)
     implItem autoDerived implG (trait_ ++ angle rhsTy) selfTy wheres
       (["type", "Output", "="] ++ this ++ [";", "fn", fn] ++ paren (["self", ",", "rhs", ":"] ++ rhsTy) ++
@@ -91,7 +86,7 @@ def OpsImpl.renderForm (o : OpsImpl) (l r : Bool) (w : WCB) : Toks :=
         paren ("&" :: "mut" :: memberOf "self" f ++ "," :: withRef (memberOf "rhs" f) r)
     let wheres := w.build fun ty =>
       let t := ty.toks
-      if r then "for" :: angle ["'a"] ++ t ++ ":" :: trait_ ++ angle ("&" :: "'a" :: t)
+      if r then "for" :: angle ["'__a"] ++ t ++ ":" :: trait_ ++ angle ("&" :: "'__a" :: t)
       else t ++ ":" :: trait_ ++ angle t
     implItem autoDerived implG (trait_ ++ angle rhsTy) this wheres
       (["fn", fn] ++ paren (["&", "mut", "self", ",", "rhs", ":"] ++ rhsTy) ++ brace (termBy ";" exprs))
@@ -102,7 +97,7 @@ def OpsImpl.renderForm (o : OpsImpl) (l r : Bool) (w : WCB) : Toks :=
       ufcs (withRef fty l) trait_ fn ++ paren (withRef (memberOf "self" f) l)
     let wheres := w.build fun ty =>
       let t := ty.toks
-      if l then "for" :: angle ["'a"] ++ "&" :: "'a" :: t ++ ":" :: trait_ ++ angle ("Output" :: "=" :: t)
+      if l then "for" :: angle ["'__a"] ++ "&" :: "'__a" :: t ++ ":" :: trait_ ++ angle ("Output" :: "=" :: t)
       else t ++ ":" :: trait_ ++ angle ("Output" :: "=" :: t)
     implItem autoDerived implG trait_ selfTy wheres
       (["type", "Output", "="] ++ this ++ [";", "fn", fn] ++ paren ["self"] ++
@@ -168,7 +163,7 @@ def CloneImpl.render (c : CloneImpl) : Toks :=
         paren (["Self", "::", v.variant.name] ++ patL ++ [",", "Self", "::", v.variant.name] ++ patR) ++
           "=>" :: brace (termBy ";" cfs)
       ["fn", "clone"] ++ paren ["&", "self"] ++ ["->", "Self"] ++
-        brace ("match" :: "self" :: brace (termBy "," armsClone)) ++
+        brace (if vs.isEmpty then ["match", "*", "self", "{", "}"] else "match" :: "self" :: brace (termBy "," armsClone)) ++
       ["fn", "clone_from"] ++ paren ["&", "mut", "self", ",", "source", ":", "&", "Self"] ++
         brace ("match" :: paren ["self", ",", "source"] ++ brace (termBy "," armsFrom ++
           paren ["lhs", ",", "rhs"] ++ ["=>", "*", "lhs", "="] ++ ufcs ["Self"] (absPath ["core", "clone", "Clone"]) "clone" ++
@@ -190,7 +185,9 @@ def buildCopyEnum (en : ItemEnum) (e : Entry) (variants : List VariantE) : CopyI
   let w := WCB.new en.generics
   let (w, use) := e.pushBoundsTo w
   { name := en.name, generics := en.generics,
-    wc := variants.foldl (fun w v => v.fields.foldl (fun w f => f.pushBoundsTo use .copy w) w) w }
+    wc := variants.foldl (init := w) fun w v =>
+      let (w, u) := v.h.pushBoundsToRaw use false .copy w
+      v.fields.foldl (fun w f => f.pushBoundsTo u .copy w) w }
 
 def CopyImpl.render (c : CopyImpl) : Toks :=
   let tr := Kind.copy.path
@@ -242,22 +239,24 @@ def buildDebugEnum (en : ItemEnum) (e : Entry) (h : HAttrs) (variants : List Var
     pure (arms ++ [(v, x)], w)
   pure { name := en.name, generics := en.generics, wc := w, body := .enum_ arms }
 
-def stringify (t : Tok) : Toks := absPath ["core", "stringify"] ++ "!" :: paren [t]
+/-- a name as the string literal the generated code prints (raw-identifier prefix dropped) -/
+def nameLit (t : Tok) : Tok := "\"" ++ unraw t ++ "\""
 
 def DebugExpr.render (toExpr : FieldE → Toks) : DebugExpr → Toks
   | .transparent f => absPath ["core", "fmt", "Debug", "fmt"] ++ paren (toExpr f ++ [",", "f"])
   | .builder named ident fields =>
-    ["f", ".", if named then "debug_struct" else "debug_tuple"] ++ paren (stringify ident) ++
+    ["f", ".", if named then "debug_struct" else "debug_tuple"] ++ paren [nameLit ident] ++
       (fields.flatMap fun f =>
-        if named then [".", "field"] ++ paren (stringify f.member ++ "," :: toExpr f)
+        if named then [".", "field"] ++ paren (nameLit f.member :: "," :: toExpr f)
         else [".", "field"] ++ paren (toExpr f)) ++
       [".", "finish", "(", ")"]
 
 def DebugImpl.render (d : DebugImpl) : Toks :=
   let tr := Kind.debug.path
   let body : Toks := match d.body with
-    | .struct_ x => x.render fun f => ["&", "self", ".", f.member]
+    | .struct_ x => x.render fun f => ["&", "&", "self", ".", f.member]
     | .enum_ arms =>
+      if arms.isEmpty then ["match", "*", "self", "{", "}"] else
       "match" :: "self" :: brace (termBy "," (arms.map fun (v, x) =>
         v.makePat "" ++ "=>" :: x.render fun f => [f.makeIdent ""]))
   implItem autoDerived d.generics.implToks tr (thisTyToks d.name d.generics)
